@@ -238,8 +238,16 @@ def due_case(root, part, rng):
         cmd = "%s o:3 s:6000" % job if outlives else "%s o:3 s:10" % job
         now = int(time.time())
         due = now + L
+        dueline = "DUE:" + fmt_dt(due)
+        if rng.random() < 0.4:
+            # the same instant as a wall-clock time somewhere
+            zone = rng.choice(["Europe/Berlin", "America/New_York", "Asia/Tokyo", "Australia/Sydney", "Asia/Kolkata", "America/Los_Angeles"])
+            loc = zoned(due, zone)
+            if loc:
+                dueline = "DUE;TZID=%s:%s" % (zone, loc)
+                part.count("due_times_in_a_zone")
         req = ("BEGIN:VCALENDAR\nVERSION:2.0\nBEGIN:VTODO\nUID:due@verif\nSUMMARY:%s\nX-ECHS-SETUID:0\nX-ECHS-SETGID:0\nX-ECHS-SHELL:/bin/sh\n"
-               "LOCATION:%s\nDUE:%s\nEND:VTODO\nEND:VCALENDAR\n" % (cmd, d, fmt_dt(due)))
+               "LOCATION:%s\n%s\nEND:VTODO\nEND:VCALENDAR\n" % (cmd, d, dueline))
         part.evaluations += 1
         target = 0.25
         scale = target / max(L, 1)
